@@ -213,6 +213,9 @@ def _gen_step(rnd, sh, src, shadows):
                 'args': {'vglvls': edges,
                          'kind': rnd.choice(['linear', 'conserve'])}}
     st = cd.gen_step(rnd, sh, src, shadows, focus=act, strict=True)
+    # the generic string forms / module-level helpers know nothing of IOAPI
+    # metadata (C10/C11 are about the ioapi_base wrappers)
+    st.get('args', {}).pop('via', None)
     if st['act'] == 'apply':
         # IOAPI: reducers over the standard dimensions
         for fn in st['args']['funcs']:
